@@ -163,6 +163,8 @@ def u_body_key(ip):
     c.oblige("batch_key_fresh_next_iteration", not any(kout.eq(k) for k in used))
     c.oblige("no_key_reuse_within_iteration", not c.ghost.get("key_reuse"))
     c.oblige("counter_advanced", out["while_i"] == i0 + 1)
+    # frame used by the tail units: the loop never replaces the carried model states (they stay the states the models had before the loop)
+    c.oblige("carried_model_states_unchanged", out["model_state_train"].eq(z3.Const("ms_t", U)) and out["model_state_validation"].eq(z3.Const("ms_v", U)))
 
 
 # --------------------------------------------------------------------------------------------
@@ -180,7 +182,9 @@ def tail_unit(ip, restore, prune, save_hist):
     hpos = {"a": z3.Const("hpos_a", U), "b": z3.Const("hpos_b", U)} if save_hist else None
     hpos0 = dict(hpos) if hpos else None  # the recorded history before the tail mutates the dict in place
     hist = {"loss_train": z3.Const("h_train", U), "loss_validation": z3.Const("h_val", U), "position": hpos}
-    val = {"while_i": i_final, "history": hist, "position": {"a": z3.Const("pos_a", U), "b": z3.Const("pos_b", U)}}
+    # carried model states: by the loop frame (body unit: carried_model_states_unchanged) still the states the models had before the loop
+    val = {"while_i": i_final, "history": hist, "position": {"a": z3.Const("pos_a", U), "b": z3.Const("pos_b", U)}, "opt_state": z3.Const("opt", U), "key": z3.Const("key", U),
+           "model_state_train": z3.Const("train_state", U), "model_state_validation": z3.Const("validation_state", U)}
     upd = lambda ip_, pos, state: ip_.uf("update_state", ip_.to_U(pos), ip_.to_U(state))  # noqa: E731
     model_train = PyObj("model_train", state=z3.Const("train_state", U))
     best = z3.Function("which_best", Int, Int, U, Int)
